@@ -519,6 +519,8 @@ type rawResp struct {
 	body    []byte
 	bodyCut bool // the body read ended with an error (request timeout on a lossy network), not EOF
 	err     error
+	rc      *rawConn // the connection the request was sent on
+	took    time.Duration
 }
 
 // do sends one HTTP/3 request with full control over method, authority, path and headers.
@@ -539,9 +541,10 @@ func (rc *rawConn) do(method, host, path string, hdr http.Header, body []byte, t
 	for k, v := range hdr {
 		req.Header[k] = v
 	}
+	t0 := time.Now()
 	resp, err := rc.cc.RoundTrip(req)
 	if err != nil {
-		return rawResp{err: err}
+		return rawResp{err: err, rc: rc, took: time.Since(t0)}
 	}
 	defer resp.Body.Close()
 	var b []byte
